@@ -68,6 +68,8 @@ func LargeSpecs() []*Spec {
 		DHCP6PD("2001:db8::/40", 56),
 		PPPoE("10.4.0.0/24", "10.4.0.1"),
 		Peer("10.5.0.0/24", "10.5.0.1"),
+		PeerCluster("10.7.0.0/26", 28),
+		PeerCluster("10.7.1.0/24", 26),
 		Nexus("10.6.0.0/28"),
 		Nexus("10.6.0.0/24"),
 		Nexus("10.6.0.0/20"),
@@ -294,7 +296,7 @@ func RandomHistory(s *Spec, c Caps, rng *rand.Rand, n int, faults bool) []Op {
 	} else {
 		nsubs = 40 + rng.IntN(200)
 	}
-	sub := func(i int) string { return fmt.Sprintf("s%d", i) }
+	sub := func(i int) string { return SubName(i) }
 	var recent []int
 	out := make([]Op, 0, n)
 	for len(out) < n {
@@ -336,4 +338,60 @@ func RandomHistory(s *Spec, c Caps, rng *rand.Rand, n int, faults bool) []Op {
 		}
 	}
 	return out
+}
+
+// SubName is the i-th subscriber identifier of random histories: mostly plain, but every few are of the
+// shapes real identifiers take (access-line ids with blanks, slashes and colons, realm users with '+' and
+// '@', MAC and hex forms, percent signs, non-ASCII): identifiers travel through URLs, store keys and hashes.
+func SubName(i int) string {
+	switch i % 13 {
+	case 3:
+		return fmt.Sprintf("olt-%d eth 1/1/%d:100", i/13, i)
+	case 5:
+		return fmt.Sprintf("user+%d@realm.example", i)
+	case 7:
+		return fmt.Sprintf("02:00:5e:00:%02x:%02x", i/256%256, i%256)
+	case 9:
+		return fmt.Sprintf("cust%%20%d&x=1", i)
+	case 11:
+		return fmt.Sprintf("kundé-%d#b?c", i)
+	}
+	return fmt.Sprintf("s%d", i)
+}
+
+// Shrink reduces history h (ddmin-style single-op and chunk removal) while some rule accepted by keep is still reported.
+func Shrink(s *Spec, h []Op, drain bool, keep func(prop, rule, class string) bool) []Op {
+	fails := func(x []Op) bool {
+		hit := false
+		r, err := RunHistory(s, x, drain, func(prop, rule, class, desc string) {
+			if keep(prop, rule, class) {
+				hit = true
+			}
+		})
+		_ = r
+		return err == nil && hit
+	}
+	if !fails(h) {
+		return nil
+	}
+	cur := append([]Op(nil), h...)
+	for chunk := len(cur) / 2; chunk >= 1; {
+		removed := false
+		for i := 0; i+chunk <= len(cur); {
+			cand := append(append([]Op(nil), cur[:i]...), cur[i+chunk:]...)
+			if fails(cand) {
+				cur = cand
+				removed = true
+			} else {
+				i += chunk
+			}
+		}
+		if !removed || chunk > 1 {
+			chunk /= 2
+		}
+		if chunk == 0 {
+			break
+		}
+	}
+	return cur
 }
